@@ -1618,6 +1618,25 @@ fn special_cases() -> Vec<(String, Mode)> {
     v.push((wrap(&[this_mod("nothing", false)]), Mode::Names(vec!["nothing"])));
     // a directly instantiated typedef has no enclosing structure: THIS. cannot be resolved there
     v.push((wrap(&[this_mod("axis", true)]), Mode::Names(vec!["THIS.axis", "THIS.curve"])));
+    // the typedef is a component of TWO structures: a THIS. reference must resolve in EVERY containing structure. The
+    // second structure has `curve` but no `axis`: THIS.axis dangles there and has to be reported, THIS.curve is fine.
+    let second = "/begin TYPEDEF_STRUCTURE ts2 \"\" 16
+  /begin STRUCTURE_COMPONENT curve tcurve 0 /end STRUCTURE_COMPONENT
+  /begin STRUCTURE_COMPONENT map2 tc 8 /end STRUCTURE_COMPONENT
+/end TYPEDEF_STRUCTURE
+/begin INSTANCE i3 \"\" ts2 0 /end INSTANCE
+";
+    v.push((wrap(&[this_mod("axis", false) + second]), Mode::Names(vec!["axis"])));
+    // ... and the other way round: the component is missing in the FIRST structure only
+    let first_lacks = this_mod("axis2", false)
+        + "/begin TYPEDEF_STRUCTURE ts2 \"\" 16
+  /begin STRUCTURE_COMPONENT axis2 ta 0 /end STRUCTURE_COMPONENT
+  /begin STRUCTURE_COMPONENT curve tcurve 4 /end STRUCTURE_COMPONENT
+  /begin STRUCTURE_COMPONENT map2 tc 8 /end STRUCTURE_COMPONENT
+/end TYPEDEF_STRUCTURE
+/begin INSTANCE i3 \"\" ts2 0 /end INSTANCE
+";
+    v.push((wrap(&[first_lacks]), Mode::Names(vec!["axis2"])));
     v
 }
 
